@@ -140,13 +140,12 @@ def scan_spec(draw, cell):
         n = draw(st.integers(1, 5))
         return {"kind": "custom", "positions": [[round(draw(gen.floats(0, 1)) * a, 3), round(draw(gen.floats(0, 1)) * b, 3)] for _ in range(n)]}
     if kind == "line":
-        return {
-            "kind": "line",
-            "start": [round(draw(gen.floats(0, 1)) * a, 3), round(draw(gen.floats(0, 1)) * b, 3)],
-            "end": [round(draw(gen.floats(0, 1)) * a, 3), round(draw(gen.floats(0, 1)) * b, 3)],
-            "gpts": draw(st.integers(1, 5)),
-            "endpoint": draw(st.booleans()),
-        }
+        start = [round(draw(gen.floats(0, 1)) * a, 3), round(draw(gen.floats(0, 1)) * b, 3)]
+        end = [round(draw(gen.floats(0, 1)) * a, 3), round(draw(gen.floats(0, 1)) * b, 3)]
+        if abs(end[0] - start[0]) + abs(end[1] - start[1]) < 0.05:
+            # a zero-length line has no direction: not a scan abTEM documents
+            end = [round(start[0] + 0.5 * a, 3), round(start[1] + 0.25 * b, 3)]
+        return {"kind": "line", "start": start, "end": end, "gpts": draw(st.integers(1, 5)), "endpoint": draw(st.booleans())}
     return {
         "kind": "grid",
         "start": [0.0, 0.0],
